@@ -229,7 +229,10 @@ def check_constructor_forwarding(rep, repo):
 def check_builders(chk, rep, repo):
     # pre_compute_distance
     fi = repo.need_function("opfython.math.general", "pre_compute_distance")
-    w = Walker(repo, fi, inline=_private_same_module(fi))
+    from ..common import registry_accessor
+    acc = registry_accessor(repo)
+    same = _private_same_module(fi)
+    w = Walker(repo, fi, inline=lambda f: same(f) or acc(f))
     st = [e for e in w.events if e.kind == "store" and e.target[0] == "idx" and e.target[1][0] == "idx"
           and e.target[1][1][0] == "alloc"]
     ok = False
